@@ -264,6 +264,19 @@ def stepDoc (ins impl : List String) : Option String := do
     | _ => none
   | _ => none
 
+/-- `C13.load body valid => result loadOK`: the loader-acceptance clause.  There is no model
+prediction for these lines (no schema of the historical versions): the driver only
+evaluates the clause on the implementation's observation. -/
+def stepLoad (ins impl : List String) : Option String :=
+  match ins, impl with
+  | [_body, valid], [res, loadOK] =>
+    let spec : Option String :=
+      if res.startsWith "P" then some "panic-other-step0"
+      else if valid == "1" && (res == "U" || res == "S") && loadOK != "1" then some "loader-rejects"
+      else none
+    some (verdict true spec ("load\t" ++ (res.take 1).toString ++ "\t" ++ (loadOK.take 1).toString))
+  | _, _ => none
+
 def step (_ : Unit) (line : String) : Unit × String :=
   let fs := splitTab line
   match fs with
@@ -274,6 +287,10 @@ def step (_ : Unit) (line : String) : Unit × String :=
       match impl with
       | ["PANIC", _] => ((), verdict false (some "panic-other-step0") "harness-panic")
       | _ => ((), (stepDoc ins impl).getD "bad-op")
+    | none => ((), "bad-op")
+  | "C13.load" :: rest =>
+    match splitArrow rest with
+    | some (ins, impl) => ((), (stepLoad ins impl).getD "bad-op")
     | none => ((), "bad-op")
   | _ => ((), "bad-op")
 
